@@ -348,7 +348,7 @@ class Assembly:
         return res
 
 
-LOCK_PATH = os.path.join(VERIF, 'contracts', 'structure.lock.json')
+LOCK_PATH = os.environ.get('VX_LOCK_PATH') or os.path.join(VERIF, 'contracts', 'structure.lock.json')
 _LOCK = None
 
 
